@@ -269,7 +269,7 @@ def gen_perc(rnd):
     T = rnd.choice([0.0, 1.0, 0.5, 0.25, 0.75, 0.125, rnd.random(), (rnd.randrange(M + 1) / M) if M else 0.5])
     if M and rnd.random() < 0.35: T = min(1.0, near_fraction(rnd, M))
     if M and rnd.random() < 0.4: T = tricky_fraction(rnd, M) or T
-    spec = dict(kind='perc', n=n, edges=edges, T=T, seed=rnd.random(), shuffled_nodes=rnd.random() < 0.4, follow=rnd.random() < 0.5, limit1=rnd.random() < 0.3,
+    spec = dict(kind='perc', n=n, edges=edges, T=T, seed=rnd.random(), shuffled_nodes=rnd.random() < 0.4, mutocc=rnd.random() < 0.25, follow=rnd.random() < 0.5, limit1=rnd.random() < 0.3,
                 labels=rnd.choice(['int', 'int', 'str', 'mixed']))
     if rnd.random() < 0.4 and M:
         # an earlier run of the same objects over a different network (often one with the same number of edges)
@@ -309,7 +309,13 @@ def run_perc14(spec):
             return super().percolate(T_)
 
         def occupy(self, occupied):
-            st['occ'] = [tuple(e) for e in occupied]; return super().occupy(occupied)
+            st['occ'] = [tuple(e) for e in occupied]; r = super().occupy(occupied)
+            if spec.get('mutocc'):
+                # "override to manipulate the network": a sub-class that adds a shortcut of its own while the occupied edges are handled
+                gg = self.network(); ns_ = sorted(gg.nodes(), key=I)
+                ne = next(((a, b) for a in ns_ for b in ns_ if I(a) < I(b) and not gg.has_edge(a, b)), None)
+                if ne is not None: gg.add_edge(*ne); st['extra'] = tuple(sorted((I(ne[0]), I(ne[1]))))
+            return r
 
         def unoccupy(self, unoccupied):
             st['unocc'] = [tuple(e) for e in unoccupied]; return super().unoccupy(unoccupied)
@@ -339,7 +345,9 @@ def run_perc14(spec):
         wg = d.network()
         M = len(order.get('es', []))
         occ = int(M * T)
-        kept = canon(wg.edges())
+        kept = [e for e in canon(wg.edges()) if e != st.get('extra')]
+        if st.get('extra') is not None and not wg.has_edge(*[v for v in wg.nodes() if I(v) in st['extra']]):
+            viol.append(f"the edge {st['extra']} that the sub-class added in occupy() was removed again (it was never one of the shuffled edges)")
         exp.append(f"OCC {len(st['occ'])} KEPT {canon(st['occ'])} UNOCC {canon(st['unocc'])}".replace("'", ""))
         orig = canon(proto.edges())
         if len(kept) != occ: viol.append(f"T={T}, M={M}: the working network keeps {len(kept)} edges, floor(T*M) = {occ}")
@@ -349,7 +357,7 @@ def run_perc14(spec):
         elif sorted(canon(st['occ']) + canon(st['unocc'])) != orig: viol.append(f"occupied {canon(st['occ'])} and unoccupied {canon(st['unocc'])} do not partition the edge set {orig}")
         elif canon(g.edges()) != orig or sorted(map(I, g.nodes())) != sorted(map(I, proto.nodes())): viol.append("the prototype network was modified")
         elif wg is g: viol.append("the build worked on the prototype network itself")
-        elif spec.get('follow') and canon(Probe.seen) != kept: viol.append(f"the next component of the sequence was built on {Probe.seen}, the percolated network is {kept}")
+        elif spec.get('follow') and [e for e in canon(Probe.seen) if e != st.get('extra')] != kept: viol.append(f"the next component of the sequence was built on {Probe.seen}, the percolated network is {kept}")
     except RecursionError:
         raise
     except Exception as ex:
